@@ -146,6 +146,8 @@ PROPS = {
                     "SHA-256 collision resistance turns 'approved checksum' into 'approved content' (sha is uninterpreted in the model); "
                     "net/http fails a request at once when its context's deadline has passed (Chain.net2: observed on every chain case "
                     "in which node 1 stalls, not derived); "
+                    "cache keys are injective in the URL up to SHA-256 collisions (Tie.remote_cacheKey_ok pins that the whole location "
+                    "string is hashed; the model indexes cache entries by abstract URL ids); "
                     "the TLS handshake, redirects and git nodes are not exercised"],
         "assumptions": ["per invocation a chain of at most two remote Taskfiles: node 1 (root entrypoint or the single remote include of a local root) "
                         "and, if node 1's content includes one remote Taskfile, that one (node 2, whose own content includes nothing remote); "
@@ -170,7 +172,13 @@ PROPS = {
                       "would have done), C20_chain_extends (no include = the single-node model). Tie: regenerated control skeletons of "
                       "readRemoteNodeContent and 11 neighbouring functions must equal the ones the model mirrors, plus cacheBeforeCtx (the "
                       "cache is read and returned before ctx is first looked at), ctxFlow (the context given to Reader.Read is handed down "
-                      "unchanged to every node read) and ctxMakers (the only deadline is made in readTaskfile); the real binary is run "
+                      "unchanged to every node read) and ctxMakers (the only deadline is made in readTaskfile), and cacheKey / httpLocation / cacheFilePath / checksumFn / "
+                      "httpResolveEntrypoint (the cache files of an http node are named by the SHA-256 of the WHOLE URL string - scheme, "
+                      "host, path, query, as given - so the model's per-URL entries are the code's); local variables in all these facts are "
+                      "scope-resolved placeholders (renames do not change them). The harness uses, besides two paths and an https URL, URLs "
+                      "that differ from the first only in the query, in letter case, in a doubled slash (own content each, one cache "
+                      "directory per sequence; chains A->B with A, B differing only in the query), so a shared cache entry shows as foreign "
+                      "content, a false prompt or a missing entry; the real binary is run "
                       "against a loopback server over generated sequences and must equal Remote.invoke / Chain.invokeChain step by step "
                       "(exit code, versions of A and B run, cache files of every URL), with a direct trust monitor for both nodes.",
         "level_note": "Trusted: Lean kernel; harness server/pty/normalisation; extractor. Not modelled: git nodes, TLS, redirects, crash between cache writes, "
